@@ -869,6 +869,91 @@ def check_indentation_sets(ctx, prog, roles, cfgname):
     return n
 
 
+R12 = "C10.E12.search-resumes-one-past-a-rejected-candidate"
+FINDERS = ("::memchr", "::memstr", "::position", "::find", "::rfind", "::rposition", "::find_overlapping")
+
+
+def check_search_resume(ctx, prog, roles, cfgname):
+    """E12 (round 12, seed C10-12, and the raw-block scan of the pinned tree): delimiters may share prefixes with themselves
+    (`<<` inside `<<<`, `##}` in front of `#}`).  A scan that verifies a candidate and, when the verification fails, goes on
+    searching must resume ONE byte after the start of the rejected candidate: resuming after the whole needle skips a real
+    occurrence that begins inside the rejected one.  In every loop of the lexer (and of the search helpers it calls) that
+    (a) searches from a loop-carried offset and (b) leaves the loop when a candidate is accepted, no definition of that
+    offset on a path back to the search adds the length of the needle."""
+    tag = "" if cfgname == "MAX" else "[%s]" % cfgname
+    scope = list(roles.fns)
+    names = {c.name for f in roles.fns for c in f.calls()}
+    for k, g in prog.fns.items():
+        if k in names and g.crate == "minijinja" and g.loc.f.endswith("utils.rs") and g not in scope:
+            scope.append(g)
+    n = 0
+    for f in scope:
+        if f.kind == "closure":
+            continue
+        for (hdr, body) in cfg.natural_loops(f):
+            finders = [c for c in f.calls() if c.bb in body and c.name.endswith(FINDERS)]
+            if not finders:
+                continue
+            # loop-carried offsets: locals defined inside the loop whose value reaches a finder's haystack slice
+            offs = set()
+            # index / get calls whose result is the haystack of a finder in this loop
+            feeding = set()
+            for fc in finders:
+                if fc.args and "c" not in fc.args[0]:
+                    for o in flow.origins(f, fc.args[0], through_calls=lambda q: 0 if q.name.endswith(("::as_bytes", "::deref", "::as_ref")) else None):
+                        if o.kind == "call":
+                            feeding.add(o.call.bb)
+            for c in f.calls():
+                if c.bb not in body or c.bb not in feeding or not c.name.endswith(("::index", "::get", "::get_unchecked")) or len(c.args) < 2 or "c" in c.args[1]:
+                    continue
+                for o in flow.origins(f, c.args[1]):
+                    if o.kind == "agg" and (o.rv.get("adt") or "").startswith("core::ops::range::RangeFrom"):
+                        for x in o.rv["ops"]:
+                            q = op_place(x) if "c" not in x else None
+                            if q is not None and "p" not in q:
+                                offs.add(q["l"])
+                                # follow plain copies to the variable that is assigned in the loop
+                                for d in flow.whole_defs(f, q["l"]):
+                                    if d.kind == "stmt" and d.rv["k"] == "use" and op_place(d.rv["op"]) is not None and "p" not in op_place(d.rv["op"]):
+                                        offs.add(op_place(d.rv["op"])["l"])
+            offs = {l for l in offs if any(d.bb in body for d in flow.whole_defs(f, l))}
+            if not offs:
+                continue
+            accepts = [bb for bb in body if any(s_ not in body for s_ in f.succ[bb])]
+            exits_by_return = any(bb in cfg.reach_from(f, x) for bb in f.returns() for x in accepts) or True
+            n += 1
+            bad = []
+            for l in sorted(offs):
+                for d in flow.whole_defs(f, l):
+                    if d.bb not in body or d.kind != "stmt":
+                        continue
+                    # can this definition be followed by another search in the same loop?
+                    if not any(c.bb in cfg.reach_from(f, d.bb) for c in finders):
+                        continue
+                    terms = []
+
+                    def walk(op, depth=0):
+                        if "c" in op or depth > 5:
+                            return
+                        for o in flow.origins(f, op):
+                            if o.kind == "bin" and o.rv["op"] in ("Add", "AddWithOverflow", "AddUnchecked"):
+                                walk(o.rv["a"], depth + 1)
+                                walk(o.rv["b"], depth + 1)
+                            elif o.kind == "call":
+                                terms.append(o.call)
+                    walk(d.rv["op"] if d.rv["k"] == "use" else d.rv.get("a", {}))
+                    if d.rv["k"] == "bin":
+                        walk(d.rv["a"])
+                        walk(d.rv["b"])
+                    for t_ in terms:
+                        if t_.name.rsplit("::", 1)[-1] == "len" and not any(t_.bb == c.bb for c in finders):
+                            bad.append(f.tloc(d.bb))
+            ctx.ob(R12, "%s|loop@%s%s" % (f.path.replace(LEX, "").replace("minijinja::utils::", "utils::"), len([1 for h2, _ in cfg.natural_loops(f) if h2 <= hdr]), tag),
+                   not bad, "a search loop advances its offset by the length of the needle on a path that searches again (%s): an "
+                   "occurrence that begins inside a rejected candidate is skipped" % sorted(set(str(b) for b in bad)), f.where(hdr))
+    return n
+
+
 def tag_of(cfgname):
     return "" if cfgname == "MAX" else "[%s]" % cfgname
 
@@ -900,6 +985,8 @@ def run(ctx):
         n9 = check_crlf_order(ctx, prog, roles, cfgname)
         n10 = check_lstrip_gate(ctx, prog, roles, per_fn, cfgname)
         n11 = check_indentation_sets(ctx, prog, roles, cfgname)
+        n12 = check_search_resume(ctx, prog, roles, cfgname)
+        ctx.count("C10.E12 search loops" + tag_of(cfgname), n12)
         ctx.count("C10.E11 functions that single out the space" + tag_of(cfgname), n11)
         if cfgname == "MAX":
             check_literals(ctx, prog, roles, cfgname)
